@@ -677,6 +677,29 @@ async fn run_nodes(case: &Case, rep: &mut Report) -> Vec<Finding> {
     let mut run = Run { case, nodes: case.rids.iter().map(|r| Node::spawn(&case.subject, *r, case.causal)).collect(), produced: BTreeMap::new(), truth: BTreeMap::new(), tr: Track::default(), seq: vec![vec![]; n], seen: BTreeSet::new(), out: vec![] };
     let mut keys: BTreeSet<u8> = BTreeSet::new();
     let mut now = 0u64;
+    // Every fifth history starts in a cluster that has been running for a long time next to these (fresh) nodes: a replica that
+    // no longer takes part (id 77) wrote every key of the history at logical time 5 000 000 and all nodes have received that
+    // write. Whatever a node writes afterwards has to be stamped above it - however far ahead of the node's own clock it was.
+    let touched_keys: BTreeSet<u8> = run.case.steps.iter().filter_map(|s| if let Step::Op { key, cmd, .. } = s { Some(touched(*key, cmd)) } else { None }).flatten().collect();
+    // (random histories only - they carry a delivery plan; the exhaustive matrix keeps its designed prior states)
+    if n >= 2 && !run.case.fin.is_empty() && (run.case.steps.len() + run.case.rids[0] as usize) % 5 == 0 {
+        rep.count("runs_next_to_a_far_ahead_clock");
+        for k in &touched_keys {
+            let old = ReplicaId::new(77);
+            let v = ReplicatedValue::with_value(sds("written-long-ago-by-a-far-ahead-node"), redis_sim::replication::lattice::LamportClock { time: 5_000_000 + *k as u64, replica_id: old });
+            let d = ReplicationDelta::new(kname(*k), v.clone(), old);
+            run.truth.entry(*k).or_default().push(v);
+            for r in 0..n {
+                run.nodes[r].apply(d.clone());
+                if let Ok(l) = run.nodes[r].look(&kname(*k)).await {
+                    let prior = run.tr.prior(r, *k);
+                    let c = Culprit::apply("", &prior, &l.rvc);
+                    run.tr.observe(r, *k, &l, c);
+                }
+            }
+            keys.insert(*k);
+        }
+    }
     for st in &run.case.steps {
         match st {
             Step::Op { id, at, key, cmd } if *at < n => {
